@@ -551,7 +551,7 @@ def clone_grid(tier):
             d = {}
             for nm, c in zip(o.componentType.keys(), o._componentValues):
                 c = content(c)
-                if c not in (None, {}):
+                if c is not None:           # an empty record *value* ({}) is content, a schema placeholder (None) is not
                     d[nm] = c
             return d
         return int(o) if o.isValue else None
